@@ -634,6 +634,15 @@ func (ci *corrInfo) evalVal(v ssa.Value, st *pathFacts, depth int) evalRes {
 		return evalRes{}
 	case *ssa.Alloc, *ssa.MakeClosure, *ssa.Function, *ssa.MakeChan, *ssa.MakeMap, *ssa.MakeSlice:
 		return evalRes{kind: 3}
+	case *ssa.Call:
+		// the library's error wrappers return nil exactly for a nil cause
+		if curCtx != nil && curCtx.wrapOK && len(x.Call.Args) > 0 {
+			if g := curCtx.StaticCalleeOf(&x.Call); g != nil && curCtx.isWrapFn(g) {
+				if r := ci.evalVal(x.Call.Args[0], st, depth+1); r.kind == 2 || r.kind == 3 {
+					return r
+				}
+			}
+		}
 	}
 	if cl, ok := ci.valClass[v]; ok {
 		switch corrGet(st.bits, cl) {
@@ -786,4 +795,29 @@ func constsAlong(f *ssa.Function, e ifEdge, at ssa.Instruction, v ssa.Value, sto
 		return false
 	}, q)
 	return vals, ok && reached
+}
+
+// nonNilOnAllPaths: on every path from the function's entry to `at`, v evaluates to a value known to be non-nil (through the
+// constants and nil tests the path has seen).
+func (c *Ctx) nonNilOnAllPaths(f *ssa.Function, v ssa.Value, at ssa.Instruction) bool {
+	ci := corrOf(f)
+	ok, reached := true, false
+	canReachFrom(f, nil, nil, -1, func(in ssa.Instruction) bool {
+		if in != at {
+			return false
+		}
+		reached = true
+		if ci.cur == nil {
+			ok = false
+			return false
+		}
+		ci.at = at.Block()
+		r := ci.evalVal(v, ci.cur, 0)
+		ci.at = nil
+		if r.kind != 3 {
+			ok = false
+		}
+		return false
+	}, PathQ{})
+	return ok && reached
 }
